@@ -2,7 +2,7 @@
    Only statements here; proofs are in proofs/FilterProofs.v and proofs/MajorProofs.v.
    The minor stage has its own model elsewhere (C04); here its evidence filter (minor.py:57-74) is covered, and the stage itself
    is checked metamorphically on the implementation by harness/c15.py. *)
-From Aldy Require Import Base Consts Lp Filter MajorModel MajorSpec FilterProofs MajorProofs.
+From Aldy Require Import Base Consts Lp Filter MajorModel MajorSpec FilterProofs MajorProofs Exprs_cov Tied_cov Tied_cov_major.
 Open Scope Z_scope.
 
 (* 1. observations below either threshold ([lowq]: base quality < min_quality or mapping quality < min_mapq) do not count:
@@ -140,3 +140,25 @@ Example C15_ex_supported :
   supported ex_par (fun _ => 2%Q) c (100, AG) = true /\ supported ex_par (fun _ => 2%Q) c (100, [65; 62; 67]) = false /\
   coverage (filtered_q ex_par c) (100, [65; 62; 67]) = 0.
 Proof. vm_compute. repeat split; reflexivity. Qed.
+
+(* ================================================================= tie to the current source tree
+   The decision expressions below are regenerated from /repo's Python AST on every run (harness/gen_exprs.py -> gen/Exprs_cov.v);
+   each theorem says that the model's definition IS that expression, for all arguments.  A change of the expression in the code
+   breaks the obligation even when no sampled input distinguishes old and new behaviour. *)
+Theorem C15_tie_quality_filter : forall p o, q_ok p o = qual_keep (inZ (fst o)) (inZ (snd o)) (p_min_quality p) (p_min_mapq p).
+Proof. exact qual_keep_tied. Qed.
+Goal True. idtac "ASSUME C15_tie_quality_filter". Abort.
+Print Assumptions C15_tie_quality_filter.
+
+Theorem C15_tie_basic_filter : forall p c m cn,
+  basic_filter p c m cn =
+  basic_pass (inZ (coverage c m)) (basic_min_cov (p_min_coverage p) (inZ (total c m)) (basic_thres 0 cn (p_threshold p))).
+Proof. exact basic_filter_tied. Qed.
+Goal True. idtac "ASSUME C15_tie_basic_filter". Abort.
+Print Assumptions C15_tie_basic_filter.
+
+Theorem C15_tie_single_copy : forall I cv m,
+  single_copy_cv I cv m = if single_copy_zero (pcn I (fst m)) then 0%Q else single_copy_val (inZ (total cv m)) (pcn I (fst m)).
+Proof. exact single_copy_major_tied. Qed.
+Goal True. idtac "ASSUME C15_tie_single_copy". Abort.
+Print Assumptions C15_tie_single_copy.
